@@ -793,7 +793,14 @@ class SgzReader(object):
         trace : numpy.ndarray of float32, shape (n_samples) or (max_sample_id - min_sample_id)
             A single trace, decompressed
         """
+        min_sample_id = 0 if min_sample_id is None else min_sample_id
+        max_sample_id = self.n_samples if max_sample_id is None else max_sample_id
+        if not 0 <= min_sample_id < max_sample_id <= self.n_samples:
+            raise IndexError(self.range_error.format((min_sample_id, max_sample_id), 0, self.n_samples))
+
         if self.is_2d:
+            if not 0 <= index < self.tracecount:
+                raise IndexError(self.range_error.format(index, 0, self.tracecount - 1))
             min_trace = self.blockshape[1] * (index // self.blockshape[1])
 
             if self.blockshape[1] == 4:
@@ -802,7 +809,7 @@ class SgzReader(object):
                 chunk = self.read_subplane(min_trace, min_trace+self.blockshape[1],
                                            0, self.n_samples, access_padding=True)
 
-            trace = chunk[index % self.blockshape[1], 0:self.n_samples]
+            trace = chunk[index % self.blockshape[1], min_sample_id:max_sample_id]
             return trace
 
         else:
@@ -818,9 +825,6 @@ class SgzReader(object):
             il, xl = index // self.n_xlines, index % self.n_xlines
             min_il = self.blockshape[0] * (il // self.blockshape[0])
             min_xl = self.blockshape[1] * (xl // self.blockshape[1])
-            min_sample_id = 0 if min_sample_id is None else min_sample_id
-            max_sample_id = self.n_samples if max_sample_id is None else max_sample_id
-
             min_z = self.blockshape[2] * (min_sample_id // self.blockshape[2])
             max_z = self.blockshape[2] * ((max_sample_id + self.blockshape[2] - 1) // self.blockshape[2])
 
